@@ -728,12 +728,12 @@ void body(V::Ctx &ctx)
         }
         return;
     }
-    VB::runSharded(sys, ctx, ctx.quick() ? 4 : 5);
-    if (V::begin_case("limits")) {     // case n+1
+    if (V::begin_case("limits")) {     // case 1 (shard 1 % n); first, so that a deadline in the BFS cannot skip it
         VB::setDesc("limits");
         limitsCase();
         V::end_case();
     }
+    VB::runSharded(sys, ctx, ctx.quick() ? 4 : 5);     // cases 2..n+1: exactly one per shard
 }
 
 } // namespace
